@@ -329,10 +329,12 @@ func abortedMergeHistory(c *runner.Ctx) {
 			c.Inc("history.aborted_merges", 1)
 		}
 	}
-	ch := make(chan struct{})
-	cw := &cancelWriter{ch: ch, at: hr.Intn(L)}
-	runner.Try(func() { _, err = ice.Merge(ss, dr, 0).WriteTo(cw, ch) })
-	if err != nil {
-		c.Inc("history.cancelled_merges", 1)
+	for i := 0; i < 3; i++ { // a 1-byte merge buffer lets the writer see (and cancel at) every offset
+		ch := make(chan struct{})
+		cw := &cancelWriter{ch: ch, at: hr.Intn(L)}
+		runner.Try(func() { _, err = ice.Merge(ss, dr, 1).WriteTo(cw, ch) })
+		if err != nil {
+			c.Inc("history.cancelled_merges", 1)
+		}
 	}
 }
